@@ -187,7 +187,9 @@ func (C12) Run(ctx *sim.RunCtx, data json.RawMessage) (*sim.Outcome, error) {
 			}
 			delivered = append(delivered, files)
 			hist = append(hist, fmt.Sprintf("%s%d", op.Pass, len(files)))
+			r.dirName = op.DirName
 			dir := r.newDir()
+			r.dirName = 0
 			var paths []string
 			r.symlinks = op.Symlinks
 			for pos, fi := range files {
